@@ -393,6 +393,11 @@ fn handle(sh: &Arc<Shared>, mut rq: Request, c: usize, m: usize) {
         let r: std::io::Result<()> = lib(|| {
             if kind == "copy" {
                 std::io::copy(rq.as_reader(), &mut got).map(|_| ())
+            } else if kind == "read_to_string" {
+                let mut text = String::new();
+                let r = rq.as_reader().read_to_string(&mut text).map(|_| ());
+                got = text.into_bytes();
+                r
             } else {
                 rq.as_reader().read_to_end(&mut got).map(|_| ())
             }
@@ -559,7 +564,31 @@ fn handle(sh: &Arc<Shared>, mut rq: Request, c: usize, m: usize) {
                 }
                 chunk.extend_from_slice(&body[off..off + p]);
                 off += p;
-                if let Err(e) = w.write_all(&chunk) {
+                let wr = if a.vectored {
+                    // two slices per call, as a handler assembling head and body from separate buffers would
+                    let cut = chunk.len() / 3;
+                    let mut res = Ok(());
+                    let mut done = 0usize;
+                    while done < chunk.len() {
+                        let mid = done.max(cut).min(chunk.len());
+                        let bufs = [std::io::IoSlice::new(&chunk[done..mid]), std::io::IoSlice::new(&chunk[mid..])];
+                        match w.write_vectored(&bufs) {
+                            Ok(0) => {
+                                res = Err(std::io::Error::new(std::io::ErrorKind::WriteZero, "write_vectored wrote nothing"));
+                                break;
+                            }
+                            Ok(n) => done += n,
+                            Err(e) => {
+                                res = Err(e);
+                                break;
+                            }
+                        }
+                    }
+                    res
+                } else {
+                    w.write_all(&chunk)
+                };
+                if let Err(e) = wr {
                     ok = false;
                     errk = ekind(&e);
                     break;
